@@ -15,12 +15,15 @@ structure Good (s : State) : Prop where
   unreg : ∀ e, (s.eng e).registered = false → (s.eng e).run = none
   /-- an active run has its plot log -/
   active : ∀ e r, (s.eng e).run = some r → r ∈ runIds s.plotLogs
-  /-- a run parked in the RecentEngines row during a disconnect has its plot log -/
-  parked : ∀ e, (s.eng e).registered = false → ∀ r, (s.eng e).recentEngineRun = some (some r) → r ∈ runIds s.plotLogs
+  /-- a run remembered in a RecentEngines row has its plot log -/
+  parked : ∀ e r, (s.eng e).recentEngineRun = some (some r) → r ∈ runIds s.plotLogs
   /-- every plot log belongs to a run that is stored as recent run, or is open at some engine -/
   accounted : ∀ r ∈ runIds s.plotLogs, r ∈ runIds s.recentRuns ∨ ∃ e, openAt (s.eng e) r
   /-- every recent run has a plot log -/
   rrHasPl : ∀ r ∈ runIds s.recentRuns, r ∈ runIds s.plotLogs
+  /-- while an engine is registered its RecentEngines row names exactly its active run (written by
+      `store_recent_engine` at registration-restore, run start and run stop) -/
+  synced : ∀ e r, (s.eng e).registered = true → ((s.eng e).run = some r ↔ (s.eng e).recentEngineRun = some (some r))
 
 theorem good_init : Good init := by
   constructor <;> simp [init, runIds]
@@ -121,8 +124,21 @@ theorem step_disconnect_eq (g : Bool) (s : State) (e : Nat) :
   | true => simp [step, hreg, setEng]
 
 
+theorem step_restart_eq (g : Bool) (s : State) :
+    (∀ x, (step g s .restart).1.eng x =
+      if (s.eng x).registered then
+        { s.eng x with registered := false, run := none, recentEngineRun := some (s.eng x).run }
+      else s.eng x) ∧
+    (step g s .restart).1.plotLogs = s.plotLogs ∧ (step g s .restart).1.recentRuns = s.recentRuns := by
+  simp [step]
+
+theorem step_crash_eq (g : Bool) (s : State) :
+    (∀ x, (step g s .crash).1.eng x = { s.eng x with registered := false, run := none }) ∧
+    (step g s .crash).1.plotLogs = s.plotLogs ∧ (step g s .crash).1.recentRuns = s.recentRuns := by
+  simp [step]
+
 theorem good_register (s : State) (e : Nat) (h : Good s) : Good (step true s (.register e)).1 := by
-  obtain ⟨h1, h2, h3, h4, h5, h6, h7⟩ := h
+  obtain ⟨h1, h2, h3, h4, h5, h6, h7, h8⟩ := h
   obtain ⟨he, hp, hr⟩ := step_register_eq true s e
   constructor
   · rw [hp]; exact h1
@@ -133,10 +149,13 @@ theorem good_register (s : State) (e : Nat) (h : Good s) : Good (step true s (.r
     · rename_i hc
       simp only [restoredRun] at hx
       split at hx
-      · rename_i q hq; cases hx; exact h5 e hc.2 _ hq
+      · rename_i q hq; cases hx; exact h5 e _ hq
       · cases hx
     · exact h4 x r hx
-  · intro x hx r hr'; rw [he x] at hx hr'; rw [hp]; grind
+  · intro x r hr'; rw [he x] at hr'; rw [hp]
+    split at hr'
+    · rename_i hc; exact h5 e r (by simpa using hr')
+    · exact h5 x r hr'
   · intro r hr'; rw [hp] at hr'; rw [hr]
     rcases h6 r hr' with hh | ⟨x, hh⟩
     · exact Or.inl hh
@@ -152,22 +171,30 @@ theorem good_register (s : State) (e : Nat) (h : Good s) : Good (step true s (.r
         · left; simp [restoredRun, hh.2]
       · simp only [hc, if_false]; exact hh
   · rw [hp, hr]; exact h7
+  · intro x r hx; rw [he x] at hx ⊢
+    by_cases hc : x = e ∧ (s.eng e).registered = false
+    · obtain ⟨rfl, hreg⟩ := hc
+      simp only [hreg, and_self, if_true, restoredRun]
+      cases (s.eng x).recentEngineRun with
+      | none => simp
+      | some o => cases o <;> simp
+    · simp only [hc, if_false] at hx ⊢; exact h8 x r hx
 
 theorem good_disconnect (s : State) (e : Nat) (h : Good s) : Good (step true s (.disconnect e)).1 := by
-  obtain ⟨h1, h2, h3, h4, h5, h6, h7⟩ := h
+  obtain ⟨h1, h2, h3, h4, h5, h6, h7, h8⟩ := h
   obtain ⟨he, hp, hr⟩ := step_disconnect_eq true s e
   constructor
   · rw [hp]; exact h1
   · rw [hr]; exact h2
   · intro x hx; rw [he x] at hx ⊢; grind
   · intro x r hx; rw [he x] at hx; rw [hp]; grind
-  · intro x hx r hr'; rw [he x] at hx hr'; rw [hp]
+  · intro x r hr'; rw [he x] at hr'; rw [hp]
     by_cases hc : x = e ∧ (s.eng e).registered = true
     · simp only [hc, and_self, if_true] at hr'
       obtain ⟨rfl, _⟩ := hc
       apply h4 x r
       simpa using hr'
-    · simp only [hc, if_false] at hx hr'; exact h5 x hx r hr'
+    · simp only [hc, if_false] at hr'; exact h5 x r hr'
   · intro r hr'; rw [hp] at hr'; rw [hr]
     rcases h6 r hr' with hh | ⟨x, hh⟩
     · exact Or.inl hh
@@ -183,10 +210,14 @@ theorem good_disconnect (s : State) (e : Nat) (h : Good s) : Good (step true s (
         · rw [hreg] at hh; cases hh.1
       · simp only [hc, if_false]; exact hh
   · rw [hp, hr]; exact h7
+  · intro x r hx; rw [he x] at hx ⊢
+    by_cases hc : x = e ∧ (s.eng e).registered = true
+    · simp only [hc, and_self, if_true] at hx; cases hx
+    · simp only [hc, if_false] at hx ⊢; exact h8 x r hx
 
 theorem good_start (s : State) (e r : Nat) (h : Good s) : Good (step true s (.start e r)).1 := by
   by_cases hreg : (s.eng e).registered = true
-  · obtain ⟨h1, h2, h3, h4, h5, h6, h7⟩ := h
+  · obtain ⟨h1, h2, h3, h4, h5, h6, h7, h8⟩ := h
     obtain ⟨he, hp, hr⟩ := step_start_eq s e r hreg
     have hrr : ∀ q, q ∈ runIds (step true s (.start e r)).1.recentRuns ↔
         q ∈ runIds s.recentRuns ∨ (∃ p, (s.eng e).run = some p ∧ p ≠ r ∧ q = p) := by
@@ -207,7 +238,10 @@ theorem good_start (s : State) (e r : Nat) (h : Good s) : Good (step true s (.st
                   · exact nodup_addOnce _ _ _ h2
     · intro x hx; rw [he x] at hx ⊢; grind
     · intro x q hx; rw [he x] at hx; rw [hp, mem_addOnce]; grind
-    · intro x hx q hq; rw [he x] at hx hq; rw [hp, mem_addOnce]; grind
+    · intro x q hq; rw [he x] at hq; rw [hp, mem_addOnce]
+      by_cases hx : x = e
+      · simp only [hx, if_true] at hq; right; simpa using hq.symm
+      · simp only [hx, if_false] at hq; exact Or.inl (h5 x q hq)
     · intro q hq
       rw [hp, mem_addOnce] at hq
       rw [hrr]
@@ -229,50 +263,118 @@ theorem good_start (s : State) (e r : Nat) (h : Good s) : Good (step true s (.st
       rcases hq with hq | ⟨p, hp', _, rfl⟩
       · exact Or.inl (h7 q hq)
       · exact Or.inl (h4 e q hp')
+    · intro x q hx; rw [he x] at hx ⊢
+      by_cases hxe : x = e
+      · simp [hxe]
+      · simp only [hxe, if_false] at hx ⊢; exact h8 x q hx
   · have : (step true s (.start e r)).1 = s := by
       rw [(step_unregistered true s e r (by simpa using hreg)).1]
     rw [this]; exact h
 
 theorem good_stop (s : State) (e r : Nat) (h : Good s) : Good (step true s (.stop e r)).1 := by
   by_cases hreg : (s.eng e).registered = true
-  · obtain ⟨h1, h2, h3, h4, h5, h6, h7⟩ := h
-    obtain ⟨he, hp, hr⟩ := step_stop_eq s e r hreg
-    have hrr : ∀ q, q ∈ runIds (step true s (.stop e r)).1.recentRuns ↔
-        q ∈ runIds s.recentRuns ∨ (s.eng e).run = some q := by
-      intro q; rw [hr]
-      cases hrun : (s.eng e).run with
-      | none => simp
-      | some p => simp [mem_addOnce]; grind
-    constructor
-    · rw [hp]; exact h1
-    · rw [hr]
-      cases hrun : (s.eng e).run with
-      | none => exact h2
-      | some q => exact nodup_addOnce _ _ _ h2
-    · intro x hx; rw [he x] at hx ⊢; grind
-    · intro x q hx; rw [he x] at hx; rw [hp]; grind
-    · intro x hx q hq; rw [he x] at hx hq; rw [hp]; grind
-    · intro q hq
-      rw [hp] at hq
-      rw [hrr]
-      rcases h6 q hq with hh | ⟨x, hh⟩
-      · exact Or.inl (Or.inl hh)
-      · by_cases hx : x = e
-        · subst hx
-          unfold openAt at hh
-          rcases hh with hh | hh
-          · exact Or.inl (Or.inr hh)
-          · rw [hreg] at hh; cases hh.1
-        · right; refine ⟨x, ?_⟩; rw [he x]; simp only [hx, if_false]; exact hh
-    · intro q hq
-      rw [hrr] at hq
-      rw [hp]
-      rcases hq with hq | hq
-      · exact h7 q hq
-      · exact h4 e q hq
+  · cases hrun : (s.eng e).run with
+    | none =>
+      have : (step true s (.stop e r)).1 = s := by simp [step, hreg, hrun]
+      rw [this]; exact h
+    | some p =>
+      obtain ⟨h1, h2, h3, h4, h5, h6, h7, h8⟩ := h
+      obtain ⟨he, hp, hr⟩ := step_stop_eq s e r hreg
+      simp only [hrun] at he hr
+      have hrr : ∀ q, q ∈ runIds (step true s (.stop e r)).1.recentRuns ↔ q ∈ runIds s.recentRuns ∨ q = p := by
+        intro q; rw [hr, mem_addOnce]
+      constructor
+      · rw [hp]; exact h1
+      · rw [hr]; exact nodup_addOnce _ _ _ h2
+      · intro x hx; rw [he x] at hx ⊢; grind
+      · intro x q hx; rw [he x] at hx; rw [hp]; grind
+      · intro x q hq; rw [he x] at hq; rw [hp]
+        by_cases hx : x = e
+        · simp [hx] at hq
+        · simp only [hx, if_false] at hq; exact h5 x q hq
+      · intro q hq
+        rw [hp] at hq
+        rw [hrr]
+        rcases h6 q hq with hh | ⟨x, hh⟩
+        · exact Or.inl (Or.inl hh)
+        · by_cases hx : x = e
+          · subst hx
+            unfold openAt at hh
+            rcases hh with hh | hh
+            · rw [hrun] at hh; cases hh; exact Or.inl (Or.inr rfl)
+            · rw [hreg] at hh; cases hh.1
+          · right; refine ⟨x, ?_⟩; rw [he x]; simp only [hx, if_false]; exact hh
+      · intro q hq
+        rw [hrr] at hq
+        rw [hp]
+        rcases hq with hq | hq
+        · exact h7 q hq
+        · exact h4 e q (by rw [hrun, hq])
+      · intro x q hx; rw [he x] at hx ⊢
+        by_cases hxe : x = e
+        · simp [hxe]
+        · simp only [hxe, if_false] at hx ⊢; exact h8 x q hx
   · have : (step true s (.stop e r)).1 = s := by
       rw [(step_unregistered true s e r (by simpa using hreg)).2.1]
     rw [this]; exact h
+
+theorem good_restart (s : State) (h : Good s) : Good (step true s .restart).1 := by
+  obtain ⟨h1, h2, h3, h4, h5, h6, h7, h8⟩ := h
+  obtain ⟨he, hp, hr⟩ := step_restart_eq true s
+  constructor
+  · rw [hp]; exact h1
+  · rw [hr]; exact h2
+  · intro x hx; rw [he x] at hx ⊢; grind
+  · intro x r hx; rw [he x] at hx; rw [hp]; grind
+  · intro x r hr'; rw [he x] at hr'; rw [hp]
+    split at hr'
+    · exact h4 x r (by simpa using hr')
+    · exact h5 x r hr'
+  · intro r hr'; rw [hp] at hr'; rw [hr]
+    rcases h6 r hr' with hh | ⟨x, hh⟩
+    · exact Or.inl hh
+    · right
+      refine ⟨x, ?_⟩
+      rw [he x]
+      unfold openAt at hh ⊢
+      by_cases hc : (s.eng x).registered = true
+      · simp only [hc, if_true]
+        rcases hh with hh | hh
+        · right; exact ⟨trivial, by rw [hh]⟩
+        · rw [hc] at hh; cases hh.1
+      · simp only [hc, if_false]; exact hh
+  · rw [hp, hr]; exact h7
+  · intro x r hx; rw [he x] at hx
+    split at hx
+    · cases hx
+    · rename_i hc; exact absurd hx hc
+
+theorem good_crash (s : State) (h : Good s) : Good (step true s .crash).1 := by
+  obtain ⟨h1, h2, h3, h4, h5, h6, h7, h8⟩ := h
+  obtain ⟨he, hp, hr⟩ := step_crash_eq true s
+  constructor
+  · rw [hp]; exact h1
+  · rw [hr]; exact h2
+  · intro x _; rw [he x]
+  · intro x r hx; rw [he x] at hx; cases hx
+  · intro x r hr'; rw [he x] at hr'; rw [hp]; exact h5 x r hr'
+  · intro r hr'; rw [hp] at hr'; rw [hr]
+    rcases h6 r hr' with hh | ⟨x, hh⟩
+    · exact Or.inl hh
+    · right
+      refine ⟨x, ?_⟩
+      rw [he x]
+      unfold openAt at hh ⊢
+      right
+      refine ⟨rfl, ?_⟩
+      show (s.eng x).recentEngineRun = some (some r)
+      rcases hh with hh | hh
+      · cases hreg : (s.eng x).registered with
+        | true => exact (h8 x r hreg).mp hh
+        | false => rw [h3 x hreg] at hh; cases hh
+      · exact hh.2
+  · rw [hp, hr]; exact h7
+  · intro x r hx; rw [he x] at hx; cases hx
 
 /-- The invariant is preserved by every message, in every state. -/
 theorem good_step (s : State) (op : Op) (h : Good s) : Good (step true s op).1 := by
@@ -281,6 +383,8 @@ theorem good_step (s : State) (op : Op) (h : Good s) : Good (step true s op).1 :
   | disconnect e => exact good_disconnect s e h
   | start e r => exact good_start s e r h
   | stop e r => exact good_stop s e r h
+  | restart => exact good_restart s h
+  | crash => exact good_crash s h
 
 theorem good_run (s : State) (ops : List Op) (h : Good s) : Good (run true s ops) := by
   induction ops generalizing s with
@@ -299,6 +403,8 @@ theorem step_mono (g : Bool) (s : State) (op : Op) :
   cases op with
   | register e => simp only [step]; split <;> simp [setEng]
   | disconnect e => simp only [step]; split <;> simp [setEng]
+  | restart => simp [step]
+  | crash => simp [step]
   | start e r =>
     simp only [step]
     split
